@@ -283,11 +283,46 @@ def r4_signature_removal_scoped(ctx):
                             % (q, arg, unparse(recv)))
     # nobody removes whole app signatures except RenameAppLabel/SQLMutation
     allowed = {'RenameAppLabel.simulate', 'SQLMutation.simulate'}
+    purge_removes = False
     for f, c in p.callers_of('remove_app_sig'):
         if f.qualname in allowed or f.name == 'remove_app_sig':
             ctx.ok(f, 'designated caller of remove_app_sig', c)
+        elif f.qualname in ('PurgeAppTask.prepare',
+                            'DeleteApplication.simulate'):
+            # removing the purged app's own (emptied) entry: the argument
+            # must derive from the task's / simulation's own app label
+            g = ctx.cfg(f)
+            from ..flow import ReachingDefs
+            rd = ReachingDefs(g, f.params)
+            node = next((n for n in g.nodes if c in n.calls()), None)
+            src = ' '.join(unparse(e) for _, e in rd.origins(node, c.args[0])
+                           ) if node is not None and c.args else ''
+            if 'self.app_label' in src or 'simulation.app_label' in src or \
+                    'simulation.get_app_sig()' in src:
+                ctx.ok(f, 'removes the purged app\'s own signature entry', c)
+                purge_removes = True
+            else:
+                ctx.finding(f, c, '%s removes the app signature %s, which is '
+                            'not derived from its own app label' % (
+                                f.qualname, unparse(c.args[0]) if c.args
+                                else '?'))
         else:
             ctx.finding(f, c, 'remove_app_sig called from %s' % f.qualname)
+    # "... and removes exactly its entries from the stored signature": the
+    # purged app's entry itself has to go, otherwise the (now empty) app is
+    # reported as deleted by every later diff and `evolve --purge` can never
+    # pass its own simulation check
+    pp = p.func('evolve.purge_app_task', 'PurgeAppTask.prepare')
+    if purge_removes:
+        ctx.ok(pp, 'purging removes the app\'s signature entry')
+    else:
+        ctx.finding(pp, None, 'purging an app removes its model signatures '
+                    '(DeleteApplication.simulate) but never the app '
+                    'signature itself: the empty entry stays in the stored '
+                    'signature, is reported as a deleted app by every later '
+                    'diff, and `evolve --purge --execute` aborts in '
+                    '_check_simulation before executing anything',
+                    key='purged-app-sig-stays')
 
 
 def r5_exact_lookup_first(ctx, rule_id='R-C15.5'):
